@@ -382,6 +382,60 @@ func (e *schedEngine) Exec(op *Op) string {
 				}
 			}
 		}
+		// window: "thread:point:k" - the thread runs alone until it parks at the point for the k-th time; then every other thread
+		// runs (interleaved by the schedule) until it is done or blocked; then the thread runs on alone. Calls made inside the
+		// window overlap no step of the windowed thread.
+		if win := op.Arg("window"); win != "" {
+			f := strings.Split(win, ":")
+			if len(f) == 3 {
+				k, _ := strconv.Atoi(f[2])
+				var wt *sthread
+				for _, x := range e.threads {
+					if x.name == f[0] {
+						wt = x
+					}
+				}
+				if wt != nil {
+					seen := 0
+					for steps < maxSteps && wt.state == "parked" {
+						if wt.point == f[1] {
+							seen++
+							if seen >= k {
+								break
+							}
+						}
+						e.step(wt)
+						steps++
+					}
+					if wt.state == "parked" && wt.point == f[1] {
+						e.log("window:open:" + wt.name + "@" + wt.point)
+						for steps < maxSteps {
+							var parked []*sthread
+							for _, t := range e.threads {
+								if t != wt && t.state == "running" {
+									e.await(t, time.Millisecond)
+								}
+								if t != wt && t.state == "parked" {
+									parked = append(parked, t)
+								}
+							}
+							if len(parked) == 0 {
+								break
+							}
+							pick := sched[si%len(sched)] % len(parked)
+							si++
+							e.step(parked[pick])
+							steps++
+						}
+						e.log("window:close")
+					}
+					for steps < maxSteps && wt.state == "parked" {
+						e.step(wt)
+						steps++
+					}
+				}
+			}
+		}
 		for steps < maxSteps {
 			// collect asynchronous arrivals of threads that were blocked
 			for _, t := range e.threads {
